@@ -48,15 +48,16 @@ type digEvent struct {
 }
 
 type xswScript struct {
-	c       *Ctx
-	sigs    []sigEvent
-	digs    []digEvent
-	blobTok map[string]string // base64 text (white space removed) ↦ token
-	certTok map[string]string
-	trusted map[string]bool // identities signed (directly or inside a signed Response) by a trusted key
-	ops     []string
-	cfg     SPCfg
-	now     int64
+	c          *Ctx
+	sigs       []sigEvent
+	digs       []digEvent
+	blobTok    map[string]string // base64 text (white space removed) ↦ token
+	certTok    map[string]string
+	trusted    map[string]bool // identities signed (directly or inside a signed Response) by a trusted key
+	ops        []string
+	bobSpliced bool
+	cfg        SPCfg
+	now        int64
 }
 
 var wsRe = regexp.MustCompile(`\s+`)
@@ -116,10 +117,13 @@ type dumper struct {
 	nid  map[*etree.Element]int
 }
 
+// text replaces a known certificate's base64 by a short token, keeping any surrounding white space (white space is
+// significant for digests; the certificate readers strip it)
 func (d *dumper) text(raw string) string {
-	k := wsRe.ReplaceAllString(raw, "")
+	k := strings.TrimSpace(raw)
 	if t, ok := d.s.certTok[k]; ok && k != "" {
-		return t
+		i := strings.Index(raw, k)
+		return raw[:i] + t + raw[i+len(k):]
 	}
 	return raw
 }
@@ -566,6 +570,37 @@ var attackOps = []attackOp{
 		}
 		return root
 	}},
+	{"keyinfo-append-cert", func(s *xswScript, root, evil *etree.Element) *etree.Element {
+		xs := findByTag(root, "X509Data")
+		if len(xs) > 0 {
+			x := xs[s.c.rng.Intn(len(xs))]
+			e := etree.NewElement("ds:X509Certificate")
+			e.SetText(base64.StdEncoding.EncodeToString(s.c.key(s.c.pick("idp", "idp", "attacker", "idp2")).Cert.Raw))
+			x.AddChild(e)
+		}
+		return root
+	}},
+	{"attacker-signed-evil-naming-trusted-cert", func(s *xswScript, root, evil *etree.Element) *etree.Element {
+		// signed with the attacker's key; the KeyInfo additionally (second, or in a second X509Data / KeyInfo look-alike) names the trusted certificate
+		e := s.sign(evil.Copy(), "attacker")
+		if x := e.FindElement("./Signature/KeyInfo/X509Data"); x != nil {
+			c := etree.NewElement("ds:X509Certificate")
+			c.SetText(base64.StdEncoding.EncodeToString(s.c.key("idp").Cert.Raw))
+			if s.c.chance(0.7) {
+				x.AddChild(c)
+			} else {
+				insertAt(x, c, 0)
+			}
+		}
+		if a := firstAssertion(root); a != nil && s.c.chance(0.5) {
+			idx := a.Index()
+			root.RemoveChild(a)
+			insertAt(root, e, idx)
+		} else {
+			insertAt(root, e, s.c.rng.Intn(len(root.Child)+1))
+		}
+		return root
+	}},
 	{"keyinfo-keyvalue-only", func(s *xswScript, root, evil *etree.Element) *etree.Element {
 		for _, k := range findByTag(root, "KeyInfo") {
 			for len(k.Child) > 0 {
@@ -593,6 +628,53 @@ var attackOps = []attackOp{
 		e.Space = "evil"
 		e.CreateAttr("xmlns:evil", s.c.pick("urn:evil", nsSAMLP, "urn:oasis:names:tc:SAML:2.0:assertion "))
 		insertAt(root, e, 1)
+		return root
+	}},
+	{"unprefixed-foreign-lookalike", func(s *xswScript, root, evil *etree.Element) *etree.Element {
+		// an element with a SAML/dsig local name in a foreign *default* namespace (no prefix at all)
+		tag := s.c.pick("Signature", "Assertion", "EncryptedAssertion", "Signature")
+		var e *etree.Element
+		if tag == "Assertion" {
+			e = evil.Copy()
+			e.Space = ""
+			for _, x := range allElems(e) {
+				x.Space = ""
+			}
+		} else {
+			e = etree.NewElement(tag)
+			if tag == "Signature" {
+				e.CreateElement("KeyInfo").CreateElement("X509Data").CreateElement("X509Certificate").SetText(base64.StdEncoding.EncodeToString(s.c.key("idp").Cert.Raw))
+			}
+		}
+		e.CreateAttr("xmlns", s.c.pick("urn:evil", "urn:evil", nsSAMLP))
+		target := root
+		if a := firstAssertion(root); a != nil && tag == "Signature" && s.c.chance(0.5) {
+			target = a
+		}
+		insertAt(target, e, s.c.rng.Intn(len(target.Child)+1))
+		return root
+	}},
+	{"splice-other-honest-assertion", func(s *xswScript, root, evil *etree.Element) *etree.Element {
+		// the attacker's own, genuinely IdP-signed assertion (for bob) takes the place of the victim's
+		bob := s.sign(s.assertion("bob", "id-bob"), "idp")
+		s.bobSpliced = true
+		if a := firstAssertion(root); a != nil {
+			idx := a.Index()
+			root.RemoveChild(a)
+			insertAt(root, bob, idx)
+		} else {
+			root.AddChild(bob)
+		}
+		return root
+	}},
+	{"other-honest-signature-onto-evil", func(s *xswScript, root, evil *etree.Element) *etree.Element {
+		bob := s.sign(s.assertion("bob", "id-bob"), "idp")
+		e := evil.Copy()
+		if sg := directSig(bob); sg != nil {
+			insertAt(e, sg.Copy(), 1)
+		}
+		e.CreateAttr("ID", "id-bob")
+		insertAt(root, e, s.c.rng.Intn(len(root.Child)+1))
 		return root
 	}},
 	{"rename-prefix-on-assertion", func(s *xswScript, root, evil *etree.Element) *etree.Element {
@@ -812,6 +894,9 @@ func (c *Ctx) xswCase(nOps int, forcedOps []int, validBase int) {
 		opNames = append(opNames, op.name)
 	}
 	s.ops = opNames
+	if s.bobSpliced && trust.set["idp"] {
+		s.trusted["bob|bob"] = true
+	}
 	c.count("c01-layout", layout+map[bool]string{true: "+enc", false: ""}[encrypted])
 	c.count("c01-signer", signer)
 	c.count("c01-trust", trust.kind+fmt.Sprint(len(trust.kds)))
@@ -881,13 +966,8 @@ func (c *Ctx) xswCase(nOps int, forcedOps []int, validBase int) {
 	var aviewEls []*etree.Element
 	for _, ch := range proot.ChildElements() {
 		if ch.Tag == "EncryptedAssertion" {
-			var p *etree.Element
-			func() {
-				defer func() { recover() }()
-				if el, err := sp2.VerifDecryptElement(ch); err == nil {
-					p = el
-				}
-			}()
+			p := s.independentDecrypt(ch)
+			_ = sp2
 			if p == nil {
 				plains = append(plains, pl{nid: d.nid[ch]})
 			} else {
@@ -945,7 +1025,56 @@ func (c *Ctx) xswCase(nOps int, forcedOps []int, validBase int) {
 	if len(opNames) == 0 {
 		c.count("c01-noop-outcome", fmt.Sprintf("%s enc=%v signer=%s trust=%s%d -> %s", layout, encrypted, signer, trust.kind, len(trust.kds), strings.Fields(impl)[0]))
 	}
-	c.emit("xsw", toks, impl, s.forgeryOracle(impl))
+	id := c.emit("xsw", toks, impl, s.forgeryOracle(impl))
+	c.note(id, fmt.Sprintf("layout=%s enc=%v signer=%s trust=%s%d ops=%v", layout, encrypted, signer, trust.kind, len(trust.kds), opNames))
+}
+
+// independentDecrypt is the harness's own reading of what decrypting an EncryptedAssertion means: exactly one
+// xenc:EncryptedData child, an optional EncryptedKey child, xmlenc with the SP key, round-trip validation, parse.
+func (s *xswScript) independentDecrypt(ea *etree.Element) (out *etree.Element) {
+	defer func() {
+		if recover() != nil {
+			out = nil
+		}
+	}()
+	var eds []*etree.Element
+	for _, ch := range ea.ChildElements() {
+		if ch.Tag == "EncryptedData" {
+			ns, ok := resolveNS(ch)
+			if !ok {
+				return nil
+			}
+			if ns == "http://www.w3.org/2001/04/xmlenc#" {
+				eds = append(eds, ch)
+			}
+		}
+	}
+	if len(eds) != 1 {
+		return nil
+	}
+	var key interface{} = s.c.key("sp").Key
+	for _, ch := range ea.ChildElements() {
+		if ch.Tag == "EncryptedKey" {
+			k, err := xmlenc.Decrypt(key, ch)
+			if err != nil {
+				return nil
+			}
+			key = k
+			break
+		}
+	}
+	plain, err := xmlenc.Decrypt(key, eds[0])
+	if err != nil {
+		return nil
+	}
+	if xrv.Validate(bytes.NewReader(plain)) != nil {
+		return nil
+	}
+	doc := etree.NewDocument()
+	if doc.ReadFromBytes(plain) != nil || doc.Root() == nil {
+		return nil
+	}
+	return doc.Root()
 }
 
 // forgeryOracle: whatever is returned must carry an identity that a trusted key signed in the honest phase.
